@@ -147,3 +147,60 @@ func (fl *Flow) Reaches(from, stop func(ast.Node) bool) map[ast.Node]bool {
 	}
 	return out
 }
+
+// MaxCount runs a forward may-analysis that counts events along paths,
+// saturating at limit: the result maps each node to the largest number of
+// events that can have occurred on some path before it; the second result is
+// the largest count with which the function can be left.  weight gives the
+// number of events a node stands for (0 for most nodes).
+func (fl *Flow) MaxCount(limit int, weight func(ast.Node) int) (map[ast.Node]int, int) {
+	g := fl.CFG
+	out := map[ast.Node]int{}
+	if len(g.Blocks) == 0 {
+		return out, 0
+	}
+	in := map[*cfg.Block]int{}
+	seen := map[*cfg.Block]bool{g.Blocks[0]: true}
+	work := []*cfg.Block{g.Blocks[0]}
+	exit := 0
+	transfer := func(b *cfg.Block, st int, record bool) int {
+		for _, n := range b.Nodes {
+			for _, x := range subnodes(n) {
+				if record {
+					if st > out[x] {
+						out[x] = st
+					}
+				}
+				st += weight(x)
+				if st > limit {
+					st = limit
+				}
+			}
+		}
+		return st
+	}
+	for len(work) > 0 {
+		b := work[0]
+		work = work[1:]
+		st := transfer(b, in[b], false)
+		for _, s := range b.Succs {
+			if !seen[s] || st > in[s] {
+				if st > in[s] {
+					in[s] = st
+				}
+				seen[s] = true
+				work = append(work, s)
+			}
+		}
+	}
+	for _, b := range g.Blocks {
+		if !seen[b] {
+			continue
+		}
+		st := transfer(b, in[b], true)
+		if len(b.Succs) == 0 && st > exit {
+			exit = st
+		}
+	}
+	return out, exit
+}
